@@ -57,7 +57,7 @@ type Action struct {
 
 // NewSched creates an active scheduler for execution x.
 func NewSched(x *X) *Sched {
-	return &Sched{x: x, active: true, parked: map[string]*parkedG{}, byGid: map[uint64]string{}, nameCnt: map[string]int{}, threads: map[string]*bool{}}
+	return &Sched{x: x, active: !x.e.freerun, parked: map[string]*parkedG{}, byGid: map[uint64]string{}, nameCnt: map[string]int{}, threads: map[string]*bool{}}
 }
 
 func curGid() uint64 {
